@@ -5,6 +5,7 @@ from math import prod
 from typing import Callable, Dict, List, Optional, Tuple, Union
 
 import jax.numpy as jnp
+import numpy as np
 import pandas as pd
 
 from jaxley.modules import Module
@@ -233,6 +234,16 @@ def integrate(
         raise ValueError("No recordings are set. Please set them.")
     rec_inds = module.recordings.rec_index.to_numpy()
     rec_states = module.recordings.state.to_numpy()
+
+    # Synaptic states and currents are stored in one array per synapse type, whereas
+    # recordings refer to a synapse by its global edge index. Translate the global
+    # index into the index within the synapse type.
+    _, edge_states = module._get_state_names()
+    is_edge_state = np.isin(rec_states, edge_states)
+    if np.any(is_edge_state):
+        index_within_type = module.edges.groupby("type").cumcount().to_numpy()
+        edge_inds = np.where(is_edge_state, rec_inds, 0).astype(int)
+        rec_inds = np.where(is_edge_state, index_within_type[edge_inds], rec_inds)
 
     # Shorten or pad stimulus depending on `t_max`.
     if t_max is not None:
